@@ -391,7 +391,6 @@ def run (c : Case) : CaseOut := Id.run do
           let after := getPart eng r.part
           if !out.isEmpty then tags := tag tags "emit-at-row"
           if out.length > 1 then tags := tag tags "several-matches-in-one-step"
-          if before.nextStart > before.seq + 1 then tags := tag tags "seed-blocked-by-skip"
           if !after.pending.isEmpty then tags := tag tags "pending-held"
           if after.pending.any (fun p => blocked (after.runs.filter (fun x => x.startSeq != p.startSeq)) p.startSeq) then
             tags := tag tags "pending-held-behind-earlier-start"
